@@ -292,7 +292,7 @@ func runC02(t *testing.T, r *kit.Run) {
 	if r.Tape.Chance(1, 8) {
 		maxB = 40
 	}
-	f := pbfwire.Gen(r.Tape, pbfwire.Opts{MinBlocks: 2, MaxBlocks: maxB, Procs: 3, HeaderlessOneIn: 3, BigBlockOneIn: 30})
+	f := pbfwire.Gen(r.Tape, pbfwire.Opts{MinBlocks: 2, MaxBlocks: maxB, Procs: 3, HeaderlessOneIn: 3, BigBlockOneIn: 30, PlainNodes: r.Tape.Chance(1, 4)})
 	wl := kit.HashStr(3, string(f.Data))
 	r.Out.Workload = wl
 	ref := runScan(t, scanCfg{data: f.Data, procs: 1, cut: -1, errAt: -1, sched: kit.SchedCfg{Seed: 1, Flat: true}, maxObj: len(f.Objects()) + 20})
@@ -412,7 +412,7 @@ func predFamilies() []pred {
 }
 
 func runC08(t *testing.T, r *kit.Run) {
-	f := pbfwire.Gen(r.Tape, pbfwire.Opts{MinBlocks: 1, MaxBlocks: 10, MaxElems: 8, Procs: 2, AlwaysHeader: true})
+	f := pbfwire.Gen(r.Tape, pbfwire.Opts{MinBlocks: 1, MaxBlocks: 10, MaxElems: 8, Procs: 2, AlwaysHeader: true, PlainNodes: r.Tape.Chance(1, 3)})
 	wl := kit.HashStr(4, string(f.Data))
 	r.Out.Workload = wl
 	ref := runScan(t, scanCfg{data: f.Data, procs: 1, cut: -1, errAt: -1, sched: kit.SchedCfg{Seed: 1, Flat: true}, maxObj: len(f.Objects()) + 20})
@@ -546,7 +546,7 @@ func runC08(t *testing.T, r *kit.Run) {
 // ------------------------------------------------------------------ C09
 
 func runC09(t *testing.T, r *kit.Run) {
-	f := pbfwire.Gen(r.Tape, pbfwire.Opts{MinBlocks: 1, MaxBlocks: 8, MaxElems: 4, Procs: 2, AlwaysHeader: true})
+	f := pbfwire.Gen(r.Tape, pbfwire.Opts{MinBlocks: 1, MaxBlocks: 8, MaxElems: 4, Procs: 2, AlwaysHeader: true, PlainNodes: r.Tape.Chance(1, 4)})
 	wl := kit.HashStr(5, string(f.Data))
 	r.Out.Workload = wl
 	mask := 0
